@@ -146,6 +146,15 @@ theorem image_after_report_context_not_found (cfg : Cfg) (w : World) (a seid : N
 theorem image_after_association_end (cfg : Cfg) (w : World) (a : Nat) (hI : Inv cfg w) : Inv cfg (shutdownConn cfg w a) :=
   shutdown_inv cfg w a hI
 
+/-- a refused establishment — wrong node ID, a Create PDR or Create FAR that does not parse, no TEID or address left — writes nothing to the
+datapath and stores nothing (what it had acquired is given back: `establishment_keeps_chosen_teids_distinct`, C05) -/
+theorem refused_establishment_writes_nothing (cfg : Cfg) (w : World) (a lseid : Nat) (r : EstReq)
+    (h : (establish cfg w a lseid r).2.upSeid = none) :
+    (establish cfg w a lseid r).1.tables = w.tables ∧ (establish cfg w a lseid r).1.conns = w.conns := by
+  rcases establish_cases cfg w a lseid r with ⟨hc, ht, _⟩ | ⟨s, _, _, _, _, hu⟩
+  · exact ⟨ht, hc⟩
+  · rw [hu] at h; cases h
+
 /-- a modification that only updates FARs — accepted, or refused because an Update FAR does not parse — upserts farLookup entries under
 the keys the session already has (the key determines the FAR ID: `farKey_inj`), so the tables stay the image of the store -/
 theorem image_after_far_update (cfg : Cfg) (w : World) (a : Nat) (r : ModReq) (s0 : Session) (hI : Inv cfg w) (hr : FarOnly r)
